@@ -52,6 +52,7 @@ Definition step_stages (st : step) : list stage :=
 Definition body_stages (body : list step) : list stage := concat (map step_stages body).
 
 Record flow := mkFlow {
+  f_pre : list stage;      (* stage calls that run BEFORE the wheel directory is made / looked at, outside every try *)
   f_items : list item;     (* statements after the wheel directory exists, in order *)
   f_del_user : bool;       (* does the finally's guard hold when the directory was supplied by the user *)
   f_del_tmp : bool         (* ... when it was made by tempfile.mkdtemp() *)
